@@ -167,7 +167,7 @@ def compactBlk (b : Block) : Block :=
 def compactB (s : St) : St :=
   let p := mkTab s.n s.pcs .idle
   let q := mkTab s.n s.sh.qs (s.sh.qs s.n)
-  let b := mkTab s.sh.nextB (fun b => compactBlk (s.sh.blks b)) (newBlock 0)
+  let b := mkTab s.sh.nextB (fun b => compactBlk (s.sh.blks b)) (newBlock 0 0)
   { s with pcs := p.f, sh := { s.sh with qs := q.f, blks := b.f } }
 
 def simStep (sim : SimSt) (s : St) (t : Nat) (e : Env) (s' : St) : SimSt × Option String :=
